@@ -25,7 +25,7 @@ def build(need_cli=True):
         fcntl.flock(lock, fcntl.LOCK_EX)
         t0 = time.time()
         r = subprocess.run(
-            ["cargo", "build", "--release", "--offline"],
+            ["cargo", "build", "--release", "--offline", "--target-dir", TARGET],
             cwd=os.path.join(ROOT, "harness"), env=ENV,
             stdout=subprocess.PIPE, stderr=subprocess.STDOUT, text=True)
         if r.returncode != 0:
@@ -212,7 +212,8 @@ def run_check(pid, tier, spec):
         total["formats"] += st["formats"]
         total["violations"] += st["violation_count"]
         total["undecided"] += st["undecided_count"]
-        transitions += f.get("transitions") or st["evaluations"] * f.get("transitions_per_case", 1)
+        transitions += (f.get("transitions") or st["counters"].get("c18.scheduling-points")
+                        or st["evaluations"] * f.get("transitions_per_case", 1))
         for k, n in st["counters"].items():
             counters[k] = counters.get(k, 0) + n
         fam_summary.append({"family": f["name"], "cases": f["len"], "evaluated": st["evaluations"],
